@@ -252,6 +252,9 @@ func Load(cfgName string) (*Program, error) {
 	p.Funcs = kept
 	sort.SliceStable(p.Funcs, func(i, j int) bool { return ShortName(p.Funcs[i]) < ShortName(p.Funcs[j]) })
 	for _, f := range p.Funcs {
+		bindConvertedCallees(f)
+	}
+	for _, f := range p.Funcs {
 		p.ByName[ShortName(f)] = f
 		for _, b := range f.Blocks {
 			p.NInstr += len(b.Instrs)
@@ -587,4 +590,70 @@ func isGenericOrigin(f *ssa.Function) bool {
 func IsErrorMethodCall(cc *ssa.CallCommon) bool {
 	return cc.IsInvoke() && cc.Method != nil && cc.Method.Name() == "Error" && len(cc.Args) == 0 &&
 		types.Identical(cc.Value.Type(), types.Universe.Lookup("error").Type())
+}
+
+// bindConvertedCallees: a call through a function value that is a known function converted to a named function
+// type (`type adder func(...)`; `var add adder = (*T).M`; `add(x)`) is a static call of that function — the
+// conversion changes the type's name only. The call is rebound to the function so that every engine resolves it.
+func bindConvertedCallees(f *ssa.Function) {
+	for _, b := range f.Blocks {
+		for _, in := range b.Instrs {
+			ci, ok := in.(ssa.CallInstruction)
+			if !ok {
+				continue
+			}
+			cc := ci.Common()
+			if cc.IsInvoke() {
+				continue
+			}
+			v := cc.Value
+			for {
+				ct, isCT := v.(*ssa.ChangeType)
+				if !isCT {
+					break
+				}
+				v = ct.X
+			}
+			if fn, isFn := v.(*ssa.Function); isFn && v != cc.Value {
+				if m := thunkTarget(fn); m != nil {
+					fn = m
+				}
+				cc.Value = fn
+			}
+		}
+	}
+}
+
+// thunkTarget: for the synthetic wrapper of a method expression ((*T).M as a function value: "M$thunk"), the
+// method it forwards all its parameters to, in order; nil if f is not such a wrapper.
+func thunkTarget(f *ssa.Function) *ssa.Function {
+	if f.Synthetic == "" || !strings.HasSuffix(f.Name(), "$thunk") || len(f.Blocks) != 1 {
+		return nil
+	}
+	var call *ssa.Call
+	for _, in := range f.Blocks[0].Instrs {
+		switch x := in.(type) {
+		case *ssa.Call:
+			if call != nil {
+				return nil
+			}
+			call = x
+		case *ssa.Return, *ssa.DebugRef:
+		default:
+			return nil
+		}
+	}
+	if call == nil || call.Call.IsInvoke() {
+		return nil
+	}
+	m := call.Call.StaticCallee()
+	if m == nil || len(call.Call.Args) != len(f.Params) {
+		return nil
+	}
+	for i, a := range call.Call.Args {
+		if a != ssa.Value(f.Params[i]) {
+			return nil
+		}
+	}
+	return m
 }
